@@ -905,3 +905,152 @@ func ruleR14_7(r *Run) {
 	r.check(n > 0 && wit == nil, "labels.Block.setBlank:shortcut-needs-all-octants", "the solid-block shortcut is unreachable once an octant was found absent",
 		"the solid-block shortcut treats an absent (unchanged) octant as solid label 0 while the general path keeps the stored content for it: when one child block becomes all zero, the whole lower-resolution parent is blanked although its other seven octants still hold labels", w.fpos(sb), w.renderPath(wit)...)
 }
+
+func init() {
+	register(ruleDef{ID: "R20.11", Prop: "C20", Tier: "quick", Floor: 1,
+		Title: "no write into a nil map held in a map entry: when a struct fetched from a map (comma-ok) has a map-typed field that some writer of the same map leaves unset, that field is initialised or nil-checked before it is written",
+		Fn:    ruleR20_11})
+	register(ruleDef{ID: "R13.8", Prop: "C13", Tier: "quick", Floor: 1,
+		Title: "tag deltas are complete (shared with R20.11): the per-tag delta entry can record a removal after an addition for the same tag in one request (its erase set is initialised before use)",
+		Fn:    ruleR20_11})
+}
+
+func ruleR20_11(r *Run) {
+	w := r.W
+	nCand := 0
+	for _, f := range w.RepoFuncs {
+		if len(f.Blocks) == 0 || strings.HasSuffix(w.fposFile(f), "_test.go") {
+			continue
+		}
+		// struct-typed local variables assigned from a comma-ok lookup
+		type fetched struct {
+			al     *ssa.Alloc
+			lk     *ssa.Lookup
+			store  *ssa.Store
+			mapKey string
+		}
+		var fs []fetched
+		for _, b := range f.Blocks {
+			for _, in := range b.Instrs {
+				st, ok := in.(*ssa.Store)
+				if !ok {
+					continue
+				}
+				al, ok := st.Addr.(*ssa.Alloc)
+				if !ok {
+					continue
+				}
+				if _, isStruct := al.Type().(*types.Pointer).Elem().Underlying().(*types.Struct); !isStruct {
+					continue
+				}
+				ex, ok := st.Val.(*ssa.Extract)
+				if !ok || ex.Index != 0 {
+					continue
+				}
+				lk, ok := ex.Tuple.(*ssa.Lookup)
+				if !ok || !lk.CommaOk {
+					continue
+				}
+				fs = append(fs, fetched{al, lk, st, placeKey(lk.X)})
+			}
+		}
+		if len(fs) == 0 {
+			continue
+		}
+		for _, ft := range fs {
+			stt := ft.al.Type().(*types.Pointer).Elem().Underlying().(*types.Struct)
+			for i := 0; i < stt.NumFields(); i++ {
+				fld := stt.Field(i)
+				if _, isMap := fld.Type().Underlying().(*types.Map); !isMap {
+					continue
+				}
+				isFieldStore := func(in ssa.Instruction) bool {
+					s2, ok := in.(*ssa.Store)
+					if !ok {
+						return false
+					}
+					fa, ok := s2.Addr.(*ssa.FieldAddr)
+					return ok && fa.X == ssa.Value(ft.al) && fa.Field == i
+				}
+				// writes into that field's map
+				for _, b := range f.Blocks {
+					for _, in := range b.Instrs {
+						mu, ok := in.(*ssa.MapUpdate)
+						if !ok {
+							continue
+						}
+						ld, ok := mu.Map.(*ssa.UnOp)
+						if !ok {
+							continue
+						}
+						fa, ok := ld.X.(*ssa.FieldAddr)
+						if !ok || fa.X != ssa.Value(ft.al) || fa.Field != i {
+							continue
+						}
+						// reached from the fetch without (re)initialising the field or testing it for nil?
+						isGuard := func(in2 ssa.Instruction) bool {
+							if isFieldStore(in2) {
+								return true
+							}
+							if ifi, ok := in2.(*ssa.If); ok {
+								if bo, ok := ifi.Cond.(*ssa.BinOp); ok && (bo.Op == token.EQL || bo.Op == token.NEQ) && isNilConst(bo.Y) {
+									if l2, ok := bo.X.(*ssa.UnOp); ok {
+										if fa2, ok := l2.X.(*ssa.FieldAddr); ok && fa2.X == ssa.Value(ft.al) && fa2.Field == i {
+											return true
+										}
+									}
+								}
+							}
+							return false
+						}
+						p := findPath(f, ft.store, isGuard, func(in2 ssa.Instruction) bool { return in2 == ssa.Instruction(mu) }, nil)
+						if p == nil {
+							nCand++
+							r.ok(fmt.Sprintf("%s:%s.%s:initialised-before-write", fname(f), ft.al.Comment, fld.Name()), "the field is initialised or nil-checked on every path from the fetch to the write", w.pos(mu.Pos()))
+							continue
+						}
+						// evidence: some writer of the same outer map stores this struct with the field unset
+						// (fetched zero value on the not-found path, field never stored before the map update)
+						evidence := false
+						var evPos token.Pos
+						for _, ft2 := range fs {
+							if ft2.mapKey != ft.mapKey {
+								continue
+							}
+							isF2 := func(in2 ssa.Instruction) bool {
+								s2, ok := in2.(*ssa.Store)
+								if !ok {
+									return false
+								}
+								fa2, ok := s2.Addr.(*ssa.FieldAddr)
+								return ok && fa2.X == ssa.Value(ft2.al) && fa2.Field == i
+							}
+							for _, b2 := range f.Blocks {
+								for _, in2 := range b2.Instrs {
+									mu2, ok := in2.(*ssa.MapUpdate)
+									if !ok || placeKey(mu2.Map) != ft2.mapKey {
+										continue
+									}
+									if l3, ok := mu2.Value.(*ssa.UnOp); !ok || l3.X != ssa.Value(ft2.al) {
+										continue
+									}
+									if findPath(f, ft2.store, isF2, func(x ssa.Instruction) bool { return x == ssa.Instruction(mu2) }, nil) != nil {
+										if !evidence || ft2.al != ft.al {
+											evPos = mu2.Pos()
+										}
+										evidence = true
+									}
+								}
+							}
+						}
+						nCand++
+						construct := fmt.Sprintf("%s:%s.%s:initialised-before-write", fname(f), ft.al.Comment, fld.Name())
+						r.check(!evidence, construct, "no writer of the outer map leaves this map field unset",
+							fmt.Sprintf("the map field %s of an entry fetched from a map is written without being initialised or nil-checked, and the same map receives entries with that field unset (%s): the write panics with 'assignment to entry in nil map' when one request does both", fld.Name(), w.pos(evPos)), w.pos(mu.Pos()), w.renderPath(p)...)
+					}
+				}
+			}
+		}
+	}
+	r.check(nCand >= 1, "repo:map-field-of-map-entry-writes", fmt.Sprintf("%d writes into a map field of a fetched map entry examined", nCand), "no such write found: rule needs review", "-")
+}
